@@ -371,7 +371,18 @@ func c20Bits(res *fw.CaseResult, rng *rand.Rand, lo, hi int) {
 			// 2. through the binary vector store (thresholding + padding)
 			for _, metric := range []string{models.DistanceHamming, models.DistanceJaccard} {
 				bucket := diskstore.NewMemBucket(false)
-				vs, err := vectorstore.New(nil, bucket, metric, n)
+				// rep 0: the metric itself (threshold 0.5 by definition); rep 1, 2: an
+				// explicit binary quantiser with another fixed threshold on a float metric
+				thr := float32(0.5)
+				var q *models.Quantizer
+				storeMetric := metric
+				if rep > 0 {
+					thr = []float32{0, -1.5, 3.25, 0.49999}[(n+rep)%4]
+					t := thr
+					q = &models.Quantizer{Type: models.QuantizerBinary, Binary: &models.BinaryQuantizerParamaters{Threshold: &t, DistanceMetric: metric}}
+					storeMetric = models.DistanceEuclidean
+				}
+				vs, err := vectorstore.New(q, bucket, storeMetric, n)
 				if err != nil {
 					res.Violate("store-error", "binary-store:new", err.Error(), nil)
 					continue
@@ -380,7 +391,7 @@ func c20Bits(res *fw.CaseResult, rng *rand.Rand, lo, hi int) {
 				// float vectors have exactly n entries, the store pads to 64
 				vx := make([]float32, n)
 				vy := make([]float32, n)
-				vals := []float32{0, 1, 0.5, 0.50001, 0.49999, -1, 2, float32(math.Inf(1)), float32(math.Inf(-1))}
+				vals := []float32{0, 1, 0.5, 0.50001, 0.49999, -1, 2, float32(math.Inf(1)), float32(math.Inf(-1)), thr, float32(math.Nextafter32(thr, 100)), float32(math.Nextafter32(thr, -100)), -1.5, 3.25}
 				for i := 0; i < n; i++ {
 					if rep == 0 {
 						if bx[i] {
@@ -402,7 +413,7 @@ func c20Bits(res *fw.CaseResult, rng *rand.Rand, lo, hi int) {
 				}
 				h, in, un := 0, 0, 0
 				for i := 0; i < n; i++ {
-					a, b := vx[i] > 0.5, vy[i] > 0.5
+					a, b := vx[i] > thr, vy[i] > thr
 					if a != b {
 						h++
 					}
@@ -426,7 +437,7 @@ func c20Bits(res *fw.CaseResult, rng *rand.Rand, lo, hi int) {
 				res.Eval(true, "binstore", metric, n, rep)
 				for _, d := range []float32{d1, d2, d3, d4} {
 					if math.Abs(float64(d-want)) > 1e-6 {
-						res.Violate("distance-mismatch", metric+":store-mismatch", fmt.Sprintf("%s through the binary store, length %d: float->point %g, reverse %g, point->point %g / %g, definition on bits (v>0.5) %g", metric, n, d1, d2, d3, d4, want), nil)
+						res.Violate("distance-mismatch", metric+":store-mismatch", fmt.Sprintf("%s through the binary store (threshold %g), length %d: float->point %g, reverse %g, point->point %g / %g, definition on bits (v>threshold) %g", metric, thr, n, d1, d2, d3, d4, want), nil)
 						break
 					}
 				}
